@@ -113,6 +113,16 @@ func (vfs *OrefaFS) createNode(parent *node, absPath, fileName string, mode fs.F
 		nlink: 1,
 	}
 
+	if parent.mode&fs.ModeSetgid != 0 {
+		// what is created in a set-group-ID directory belongs to the group of that directory,
+		// and a directory passes the bit on.
+		nd.gid = parent.gid
+
+		if nd.dir {
+			nd.mode |= fs.ModeSetgid
+		}
+	}
+
 	parent.addChild(fileName, nd)
 
 	vfs.nodes[absPath] = nd
